@@ -28,6 +28,7 @@ type globalInfo struct {
 	elemBool bool
 	sliceLit []*big.Int // []byte{...} literal: element values
 	isSliceLit bool
+	strLit   *string // string variable initialised with a constant
 }
 
 type globalIndex struct {
@@ -150,6 +151,9 @@ func buildGlobalIndex(P *Program) *globalIndex {
 							info.ambiguous = true
 						}
 						info.scalar = constBig(c)
+					} else if c, ok := st.Val.(*ssa.Const); ok && c.Value != nil && c.Value.Kind() == constant.String && isStraightLine(init, b) && info.strLit == nil {
+						sv := constant.StringVal(c.Value)
+						info.strLit = &sv
 					} else if lit, ok := sliceLiteral(st.Val); ok && isStraightLine(init, b) && !info.isSliceLit {
 						info.sliceLit = lit
 						info.isSliceLit = true
@@ -374,6 +378,9 @@ func (vc *VC) globalLoad(st *State, p VPtr, t types.Type, idx *Term) (Value, boo
 	name := p.Cell.ID
 	if over, ok := st.cells[name+"@bind"]; ok && p.Off == 0 && p.Dyn == nil {
 		return over, true
+	}
+	if info.readOnly && !info.ambiguous && info.strLit != nil && p.Off == 0 && p.Dyn == nil && idx == nil && isString(t) {
+		return vc.stringConst(*info.strLit), true
 	}
 	if info.readOnly && !info.ambiguous && info.isSliceLit && p.Off == 0 && p.Dyn == nil && idx == nil {
 		ptr := B.Var(name+".ptr", SInt)
